@@ -317,9 +317,13 @@ def build(ctx, rng, text, entries, via):
     if via == "stringio":
         pred, exc = ctx.call(o, pb.PhasePredictor.from_polyco, io.StringIO(text), where="from_polyco(StringIO)")
     else:
-        path = os.path.join(ctx.scratch, f"polyco-{int(rng.integers(1 << 30))}.dat")
+        # tempo always writes "polyco.dat": half of the files reuse that one path (rewritten for every predictor), the others are fresh
+        path = os.path.join(ctx.scratch, "polyco.dat" if rng.random() < 0.5 else f"polyco-{int(rng.integers(1 << 30))}.dat")
         with open(path, "w") as fh:
             fh.write(text)
+        if via == "pathlib":
+            import pathlib
+            path = pathlib.Path(path)
         pred, exc = ctx.call(o, pb.PhasePredictor.from_polyco, path, where="from_polyco(path)")
     if exc is not None:
         return None
@@ -356,7 +360,7 @@ def pick_time(rng, model, kind, scale):
 
 
 def wl_predict(ctx, idx, rng):
-    via = "stringio" if idx % 3 else "path"
+    via = ["stringio", "path", "stringio", "pathlib", "stringio", "path"][idx % 6]
     text, entries, desc = make_polyco(rng)
     model = Model(entries)
     pred = build(ctx, rng, text, entries, via)
